@@ -202,7 +202,7 @@ impl Prop for C05 {
         "C05"
     }
     fn cases(&self) -> (u64, u64) {
-        (30_000, 1_200_000)
+        (120_000, 1_200_000)
     }
     fn rule(&self) -> &'static str {
         "choice bytes -> broad definition (alternatives, optional/repeated groups, adjacent groups, \
